@@ -87,7 +87,7 @@ func (g *ogen) print() onode {
 		return onode{src: c.src, out: g.escape(c.val), failOff: -1}
 	}
 	k9 := r.Intn(9)
-	if g.named && g.flavor == "isset" && r.Chance(25) {
+	if g.named && (g.flavor == "isset" || g.flavor == "escape") && r.Chance(25) {
 		k9 = 8
 	}
 	if k9 == 8 && !g.named {
@@ -639,7 +639,7 @@ func genOracleProgram(r *h.Rand, flavor string) (*prog, *sx.Sexp) {
 		Add(bind("el", vSliceI())).Add(bind("li", vSliceT(vInt(3), vInt(0), vInt(7)))).Add(bind("ls", vSliceT(vStr("a<"), vStr(""), vStr("b")))).
 		Add(bind("m", vMapI("k", vStr("v")))).Add(bind("mn", vMapI("p", vPtr("T1", nil), "m", nilMapI(), "s", nilSliceI(), "i", vNil(), "v", vInt(1)))).Add(bind("mz", vMapI("k", vInt(0)))).Add(bind("me", vMapI("", vStr("x"), "k", vStr("")))).
 		Add(bind("ms", vMapT("a", vT2("na<", 1, true), "b", vT2("nb", 2, false), "c", vT2("", 0, false)))).Add(bind("st", vT1(5, "B<", vSliceI(vInt(1)), vMapI("k", vInt(1)), vPtr("T1", inner), vNil())))
-	g.named = r.Chance(30) || flavor == "isset" && r.Chance(30)
+	g.named = r.Chance(30) || (flavor == "isset" || flavor == "escape") && r.Chance(30)
 	named := func(k string, v *sx.Sexp) *sx.Sexp { return sx.L(sx.A("named"), sx.A(k), v) }
 	vars.Add(bind("nv_int", named("int", vInt(3)))).Add(bind("nv_pint", named("pint", vInt(3)))).Add(bind("nv_bool", named("bool", vBool(true)))).
 		Add(bind("nv_float", named("float", vFloat(1.5)))).Add(bind("nv_str", named("str", vStr("s'")))).Add(bind("nv_u8", named("u8", vInt(7)))).
